@@ -116,6 +116,7 @@ def run(ctx, run):
     _mutex(ctx, run)
     _walk_goes_on(ctx, run, P.need("vbi_event_handler_add", UNIT))
     _activation_desyncs(ctx, run)
+    _gate_mask_agreement(ctx, run)
 
 
 def _unlinked_before(f, free_eid, eh):
@@ -484,3 +485,66 @@ def _activation_desyncs(ctx, run):
                               "after a handler was registered again - a page that was never transmitted is stored and announced",
                               ex.loc(f, i), witness={"function": f.name})
     run.floor("Teletext activation sites in vbi_event_enable", n, 1)
+
+
+def _gate_mask_agreement(ctx, run):
+    """packet.c gates Teletext assembly with `event_mask & TTX_EVENTS`; vbi_event_enable resets the
+    Teletext decoder when `activate & M`.  Every bit that opens the gate must be one whose
+    activation resets the decoder, or assembly runs on state nobody reset."""
+    P = ctx.prog
+    f = P.need("vbi_event_enable", UNIT)
+    reset_mask = 0
+    for bid, i in flow.all_events(f):
+        e = f.exprs[i]
+        if e["k"] == "call" and e.get("callee") == "vbi_teletext_channel_switched":
+            for a in atoms.atoms_at(f, i):
+                if a.rel == "!=" and a.R is not None and a.R.const == 0 and a.L.node is not None:
+                    m = _and_mask(f, a.L.node)
+                    if m is not None:
+                        reset_mask |= m
+    if not reset_mask:
+        raise AnalysisBroken("vbi_event_enable: the mask under which vbi_teletext_channel_switched runs was not found")
+    n = 0
+    for g in P.funcs:
+        if g.file != "src/packet.c":
+            continue
+        for bid, b in g.blocks.items():
+            t = b.term
+            if not t or "cond" not in t:
+                continue
+            for node in ex.walk(g, t["cond"]):
+                e = g.exprs[node]
+                if e["k"] == "bin" and e["op"] == "&" and "event_mask" in ex.pretty(g, node):
+                    m = _and_mask(g, node)
+                    if m is None or not (m & reset_mask or "TTX" in ex.pretty(g, node)):
+                        continue
+                    if not (m & reset_mask):
+                        continue
+                    n += 1
+                    run.touch(g)
+                    key = "RF-TAB:%s:ttx-gate-mask" % g.name
+                    extra = m & ~reset_mask
+                    if extra:
+                        run.violation("RF-TAB", key, "the Teletext gate `%s` also opens for event bit(s) %#x, whose activation does not "
+                                      "reset the Teletext decoder in vbi_event_enable (only %#x does): pages are assembled and cached "
+                                      "with no Teletext handler registered, on state no one desynchronised"
+                                      % (ex.pretty(g, node)[:60], extra, reset_mask), ex.loc(g, node),
+                                      witness={"gate": m, "reset": reset_mask})
+                    else:
+                        run.holds("RF-TAB", key, "gate mask %#x is within the activation mask %#x that resets the Teletext decoder"
+                                  % (m, reset_mask), ex.loc(g, node))
+    run.floor("Teletext gates on the event mask in packet.c", n, 1)
+
+
+def _and_mask(f, node):
+    j = ex.skip(f, node)
+    e = f.exprs[j]
+    while e["k"] == "cast":
+        j = ex.skip(f, e["c"][0])
+        e = f.exprs[j]
+    if e["k"] == "bin" and e["op"] == "&":
+        for x in e["c"]:
+            c = ex.const(f, x)
+            if c is not None:
+                return c
+    return None
